@@ -24,12 +24,15 @@ META = {
 }
 
 EVENTS = "AEXR"  # allow_write, enter, exit, exit by exception
+# G: a reader (has_events) called through the object; outside a context it opens and closes
+# an implicit one of its own
 
 
-def sequences(maxlen):
+def sequences(maxlen, with_reader=False):
     out = [()]
+    alphabet = EVENTS + ("G" if with_reader else "")
     for n in range(1, maxlen + 1):
-        for seq in itertools.product(EVENTS, repeat=n):
+        for seq in itertools.product(alphabet, repeat=n):
             inside = False
             ok = True
             for e in seq:
@@ -43,14 +46,17 @@ def sequences(maxlen):
                         ok = False
                         break
                     inside = False
-            if ok:
+            if ok and (not with_reader or "G" in seq):
                 out.append(seq)
-    return out
+    return out if not with_reader else out[1:]
 
 
 def expected_mode(seq):
     """-> (inside, writable): writable iff the current context was entered after an
-    allow_write() issued since the previous exit."""
+    allow_write() issued since the previous exit.  A reader called outside a context
+    while a permission is pending makes the next context's mode unspecified (the
+    library spends the permission on the reader's implicit context; the property allows
+    either): writable is then None."""
     armed = False
     inside = False
     writable = False
@@ -60,11 +66,14 @@ def expected_mode(seq):
         elif e == "E":
             inside = True
             writable = armed
+        elif e == "G":
+            if not inside and armed:
+                armed = None
         else:
             inside = False
             writable = False
             armed = False
-    return inside, inside and writable
+    return inside, (writable if inside else False)
 
 
 class _Boom(Exception):
@@ -79,6 +88,8 @@ def drive(tdf, seq):
             tdf.__enter__()
         elif e == "X":
             tdf.__exit__(None, None, None)
+        elif e == "G":
+            tdf.has_events
         else:
             try:
                 raise _Boom()
@@ -153,7 +164,12 @@ def case(seq, op, N, live):
             exc = e
         I.observe("exc", type(exc).__name__ if exc else None)
         after = fs.obs("f.tdf")
-        if mut:
+        if mut and writable is None:
+            # unspecified mode (see expected_mode): whatever the library decides, a refusal changes nothing
+            I.goal("either")
+            if exc is not None:
+                unchanged(I, P, fs, pre, model, None, None, N, "u", ".by_forbidden_mutation", name="f.tdf")
+        elif mut:
             if writable:
                 I.goal("allowed")
                 P("mutation_inside_write_context_accepted", exc is None, f"{op}: {type(exc).__name__ if exc else ''}: {exc}" if exc else "")
@@ -238,6 +254,12 @@ def instances(tier):
                 if not q and len(seq) >= 5 and op in READERS and op not in ("blocks", "len", "copy", "eq", "events"):
                     continue
                 inside, writable = expected_mode(seq)
-                goal = ("allowed" if writable else "forbidden") if op in MUTATORS else "reader"
+                goal = ("either" if writable is None else ("allowed" if writable else "forbidden")) if op in MUTATORS else "reader"
                 out.append(Instance(f"N{N}.{''.join(seq) or 'fresh'}.{op}", case(seq, op, N, live), goals=[goal]))
+    # histories in which a reader is called through the object between the mode events
+    for seq in sequences(4 if q else 5, with_reader=True) + ([("A", "G", "E", "X", "E"), ("A", "E", "X", "G", "E"), ("G", "A", "E", "X", "E")] if q else []):
+        for op in ["add_block", "remove_block", "set:events"] + ([] if q else ["replace_block"]):
+            inside, writable = expected_mode(seq)
+            goal = "either" if writable is None else ("allowed" if writable else "forbidden")
+            out.append(Instance(f"N2.{''.join(seq)}.{op}", case(seq, op, 2, (16,)), goals=[goal]))
     return out
